@@ -46,6 +46,8 @@ UNDER_TEST = [
     (C("ROLEQ", "MARG", frame="NED"), {"magnetic_ref": 60.0}, True), (C("ROLEQ", "MARG", frame="ENU"), {"magnetic_ref": 60.0}, True),
     (C("Fourati", "MARG"), {}, False),
     (C("AngularRate", "GYR", mode="closed"), {}, True), (C("AngularRate", "GYR", mode="series", gain="high"), {}, True),
+    # the series method with its order left to the defaults of the constructor (batch) and of update() (stream)
+    (C("AngularRate", "GYR", mode="series"), {}, True),
     # default magnetic reference (the Munich WMM vector, frame-dependent), interleaved with an instance of the OTHER frame
     (C("EKF", "MARG", frame="NED", gain="low"), {}, True, (C("EKF", "MARG", frame="ENU", gain="low"), {}, True)),
     (C("EKF", "MARG", frame="ENU", gain="high"), {}, True, (C("EKF", "MARG", frame="NED", gain="high"), {}, True)),
